@@ -152,6 +152,11 @@ def scalar_field(f, seed):
     return df.Field(f.mesh, nvdim=1, value=tracer(n, 1, seed + 2) + 0.5, valid=coded_mask(n, 2))
 
 
+def _blank(f, dtype):
+    n = tuple(int(i) for i in f.mesh.n)
+    return df.Field(f.mesh, nvdim=f.nvdim, value=np.zeros((*n, f.nvdim)), dtype=dtype, valid=True)
+
+
 def _clone_region(r):
     return df.Region(p1=tuple(r.pmin), p2=tuple(r.pmax), dims=tuple(r.dims), units=tuple(r.units),
                      tolerance_factor=r.tolerance_factor)
@@ -303,6 +308,11 @@ def build_events():
     add("angle-field", "and", lambda f, o: f.angle(o), partner="other")
     add("np.add-field", "and", lambda f, o: np.add(f, o), partner="other")
     add("np.multiply-scalarfield", "and", lambda f, o: np.multiply(o, f), partner="scalar")
+    # ufuncs with an explicit out= field (all of its cells valid beforehand): what is RETURNED carries the validity the
+    # statement names, like every other result
+    add("np.add-field-out", "and", lambda f, o: np.add(f, o, out=_blank(f, np.result_type(f.array, o.array))), partner="other")
+    add("np.negative-out", "same", lambda f, o: np.negative(f, out=_blank(f, f.array.dtype)),
+        enabled=lambda f: f.array.dtype.kind != "b")
     # ---- cell-mapping events
     for ax in range(3):
         add(f"sel-plane-ax{ax}", "map", lambda f, o, ax=ax: f.sel(**{_dims(f)[ax]: _centre(f, ax, int(f.mesh.n[ax]) - 1)}),
